@@ -13,7 +13,7 @@ import sys
 from . import _common
 
 AREA = 'bigint'
-MODULES = ['_modexp', '_strxor', '_cpuid_c']
+MODULES = None      # rebuild every extension module of setup.py (about 3 s): nothing stale can be reached indirectly
 
 BACKENDS = ['Native', 'Custom', 'GMP']
 
